@@ -24,6 +24,7 @@ import (
 	"flag"
 	"fmt"
 	"os"
+	"reflect"
 	"strconv"
 	"strings"
 	"sync"
@@ -56,7 +57,11 @@ type Case struct {
 	t    *Node
 	src  string
 	reps []Rep
+	held any // a hand-built value that IS the representation repHeld of t (stream structs_unexported)
 }
+
+// repHeld: the representation tag under which Case.held is run (typed slices, structs)
+var repHeld = Rep{"rslice", "struct"}
 
 type worker struct {
 	d   *lib.Driver
@@ -132,6 +137,9 @@ func main() {
 	}()
 	if *prop == "C11" {
 		witnessLocateStep0()
+	}
+	if on("history") {
+		historyStream()
 	}
 	var cur []Case
 	emit := func(c Case) {
@@ -336,6 +344,11 @@ func produce(emit func(Case)) {
 		n := rootBox(func(p Path, t *Node) { add(p, t, "root_box", allReps) })
 		rep.Exhaustive = append(rep.Exhaustive, fmt.Sprintf("filters reading from $: 6 operators x $-operand left/right x 7 filter positions below the root (member, member.member, wildcard, descent, multi-valued $-path, inner and last) x 11 trees (int/float/string/null keys against int and float members, -2 next to -2.5), existence, negation, conjunction, filter under filter, $ in a nested filter (%d paths)", n))
 	}
+	// 3a'''. structs with unexported fields (hand-written named types), as values, behind pointers, at depth
+	if on("structs") {
+		n := structStream(emit)
+		rep.Exhaustive = append(rep.Exhaustive, fmt.Sprintf("structs with an unexported field first / in the middle / last / only, values and pointers, in typed slices and nested: 12 values x 44 paths (%d cases)", n))
+	}
 	// 3a". long arrays, large magnitudes, many members, deep nesting
 	if on("big") {
 		rep.Exhaustive = append(rep.Exhaustive, bigStream(lib.NewRng(*seed).Fork(7), full, add, allReps))
@@ -493,6 +506,9 @@ func (w *worker) runC05(c *Case, pw, dw string) error {
 	rep.Count(fmt.Sprintf("results.%d", min(len(specVals), 4)), 1)
 	for ri, r := range reps {
 		data, ok := c.t.build(r)
+		if c.held != nil && r == repHeld {
+			data, ok = c.held, true
+		}
 		if !ok {
 			continue
 		}
@@ -884,6 +900,9 @@ func (w *worker) runC11(c *Case, pw, dw string) error {
 	var qs []query
 	for _, r := range c.reps {
 		data, ok := c.t.build(r)
+		if c.held != nil && r == repHeld {
+			data, ok = c.held, true
+		}
 		if !ok {
 			continue
 		}
@@ -999,6 +1018,26 @@ func (w *worker) runC11(c *Case, pw, dw string) error {
 				continue
 			}
 		}
+		if (!tie || !ok) && c.held != nil && ru.r == repHeld && ru.o.panic == "" && ru.o.bad == "" && filterOnPointer(c) {
+			// a filter applied to a POINTER to a struct, slice or map selects nothing (script.go evalWithRoot and
+			// filter.go Filter.Walk switch on rv.Kind() without following the pointer; the wildcard does follow it):
+			// results are lost, nothing else is reported
+			lost := false
+			switch ru.ev {
+			case "get":
+				lost = len(bagMinus(ru.o.vals, G.vals)) == 0
+			case "locate", "walk":
+				lost = len(bagMinus(valuesOf(ru.o.vals), G.vals)) == 0
+			case "first":
+				lost = !ru.o.found || contains(G.vals, ru.o.val)
+			case "has":
+				lost = !ru.o.found || len(G.vals) > 0
+			}
+			if lost {
+				knownFinding("C11-filter-pointer", class, "a filter applied to a pointer selects nothing: "+why, c, desc)
+				continue
+			}
+		}
 		if (!tie || !ok) && c.p.hasHuge() {
 			// Go's int arithmetic wraps around on such magnitudes (the model's integers are unbounded): a panic, or
 			// results that differ from the model's / from Get's
@@ -1025,7 +1064,99 @@ func (w *worker) runC11(c *Case, pw, dw string) error {
 			finding("violation", class, "evaluator does not agree with Get: "+why, c, desc)
 		}
 	}
+	w.runMixed(c)
 	return nil
+}
+
+// runMixed: MIXED data — a typed container (typed slice/array/struct/map reached by reflection) held inside a
+// plain `[]any` or `map[string]any` — under a leading descent: `$..<path>` on `[]any{T}` and
+// `map[string]any{"k": T}`. No model is involved: the oracle is the property's own comparison, FirstFound and
+// Has against Get on the all-plain data (Get on typed data is Get on plain data: C11_repr_current).
+// Known finding C11-mixed-descent-marker: in the first pass of a descent FirstFound and Has push a typed member
+// of a plain container without its own `fi|descentChildFlag` marker (Get pushes one), so the member is handed
+// to the rest of the path but never descended into. What the defective code computes is reproduced from Get:
+// the rest of the path on T itself and on the wrapper; an outcome is attributed to the finding only if it is
+// exactly that.
+func (w *worker) runMixed(c *Case) {
+	if len(c.p) == 0 || c.p[0].Kind == 'd' || c.p.has('s') || c.p.has('f') || c.p.hasHuge() || !c.t.isContainer() {
+		return // slices: C11-first-typed-slice; filters: script truth on typed data; both have streams of their own
+	}
+	var r Rep
+	for _, cr := range c.reps {
+		if cr.typed() {
+			r = cr
+			break
+		}
+	}
+	if r.AK == "" {
+		return
+	}
+	inner, ok := c.t.build(r)
+	if !ok {
+		return
+	}
+	rest := c.p.expr(true)
+	x := append(Path{fDescent()}, c.p...).expr(true)
+	for wi, wrap := range []func(v any) any{
+		func(v any) any { return []any{v} },
+		func(v any) any { return map[string]any{"k": v} },
+	} {
+		mixed, plainData := wrap(inner), wrap(c.t.simple())
+		G := goGet(x, plainData)
+		if G.panic != "" {
+			continue
+		}
+		rep.Count("runs.mixed."+r.String(), 1)
+		// what the code computes with the missing marker: the rest of the path on T and on the wrapper only
+		bug := append(append([]string{}, goGet(rest, inner).vals...), goGet(rest, mixed).vals...)
+		desc := map[string]any{"rep": r.String(), "wrapper": []string{"[]any{T}", "map[string]any{k:T}"}[wi], "mixed_path": x.String(), "get_plain": G.String()}
+		for _, ev := range []string{"first", "has"} {
+			var o out
+			if ev == "first" {
+				o = goFirst(x, mixed, false)
+			} else {
+				o = goHas(x, mixed)
+			}
+			d2 := map[string]any{"evaluator": ev, "impl": o.String(), "impl_found": o.found, "impl_val": o.val}
+			for k, v := range desc {
+				d2[k] = v
+			}
+			good := o.panic == "" && o.bad == "" && o.found == (len(G.vals) > 0) && (ev == "has" || !o.found || contains(G.vals, o.val))
+			if good {
+				continue
+			}
+			asBug := o.panic == "" && o.bad == "" && o.found == (len(bug) > 0) && (ev == "has" || !o.found || contains(bug, o.val))
+			class := ev + ":mixed:" + r.String()
+			if asBug {
+				knownFinding("C11-mixed-descent-marker", class, "FirstFound/Has do not descend into a typed container held in a plain one (Get does)", c, d2)
+			} else {
+				finding("violation", class, "evaluator does not agree with Get on mixed data", c, d2)
+			}
+		}
+	}
+}
+
+
+// filterOnPointer: is some filter fragment of the path applied to a pointer in the hand-built value?
+func filterOnPointer(c *Case) bool {
+	for i := range c.p {
+		if c.p[i].Kind != 'f' {
+			continue
+		}
+		hit := false
+		func() {
+			defer func() { _ = recover() }()
+			for _, v := range c.p[:i].expr(true).Get(c.held) {
+				if v != nil && reflect.TypeOf(v).Kind() == reflect.Ptr {
+					hit = true
+				}
+			}
+		}()
+		if hit {
+			return true
+		}
+	}
+	return false
 }
 
 // flagsFor lists the deviation flags that can touch an evaluator (Get on the simple data, the other side
@@ -1231,6 +1362,14 @@ func runReplay() {
 	}
 	defer d.Close()
 	w := &worker{d: d}
+	if st, _ := r.Replay["stream"].(string); st == "history" && replayHistory(p, r.Replay) {
+		rep.Rule = "replay of one history case"
+		_ = rep.Write(*outPath)
+		for _, f := range rep.Findings {
+			fmt.Printf("%s %s: %s\n", f.Kind, f.Class, f.What)
+		}
+		return
+	}
 	if err := w.run(Case{p: p, t: t, src: "replay", reps: append([]Rep{repSimple, repGen, repUser}, repTyped...)}); err != nil {
 		fmt.Fprintln(os.Stderr, err)
 		os.Exit(3)
